@@ -2,6 +2,7 @@ package racedrv
 
 import (
 	"math/rand"
+	"net"
 	"os"
 	"path/filepath"
 	"sync"
@@ -14,6 +15,7 @@ import (
 	"github.com/btcsuite/btcwallet/walletdb"
 	_ "github.com/btcsuite/btcwallet/walletdb/bdb"
 	"github.com/lightninglabs/neutrino"
+	"github.com/lightninglabs/neutrino/banman"
 	"github.com/lightninglabs/neutrino/blockntfns"
 	"github.com/lightninglabs/neutrino/cache/lru"
 	"github.com/lightninglabs/neutrino/headerfs"
@@ -34,7 +36,53 @@ func init() {
 		{"getblock-shutdown", wlGetBlockShutdown},
 		// real blockHandler and cfHandler goroutines: reorganisation / checkpoint-mismatch roll-back while cfHandler starts
 		{"reorg-cfhandler", wlReorgCFHandler},
+		// the ban store on its own: lookups, bans (lapsed at once / long-lived) and unbans of a few networks
+		{"banstore", wlBanStore},
 	}
+}
+
+// ban store: Status / BanIPNet / UnbanIPNet from 6 goroutines over a handful of networks.  Half of the bans have
+// lapsed by the time they are looked up (the store reaps a lapsed record inside Status), so the lookups of several
+// goroutines meet the reaping of one of them; lookups of never-banned and of actively banned networks run next to it.
+func wlBanStore(seed int64, budget int) {
+	dir, err := os.MkdirTemp("", "raceban")
+	if err != nil {
+		return
+	}
+	defer os.RemoveAll(dir)
+	db, err := walletdb.Create("bdb", filepath.Join(dir, "ban.db"), true, 10*time.Second, false)
+	if err != nil {
+		return
+	}
+	defer db.Close()
+	store, err := banman.NewStore(db)
+	if err != nil {
+		return
+	}
+	var nets []*net.IPNet
+	for _, a := range []string{"203.0.113.7:8333", "203.0.113.8:8333", "198.51.100.1:18333", "[2001:db8::7]:8333", "[2001:db8:1::9]:8333"} {
+		if n, err := banman.ParseIPNet(a, nil); err == nil {
+			nets = append(nets, n)
+		}
+	}
+	deadline := time.Now().Add(time.Duration(3*budget) * time.Second)
+	par(6, func(g int, r *rand.Rand) {
+		r.Seed(seed*131 + int64(g))
+		for i := 0; i < 400*budget && time.Now().Before(deadline); i++ {
+			n := nets[r.Intn(len(nets))]
+			switch k := r.Intn(100); {
+			case k < 55:
+				_, _ = store.Status(n)
+			case k < 80:
+				// lapsed at once (the expiry is kept in whole seconds)
+				_ = store.BanIPNet(n, banman.ExceededBanThreshold, time.Duration(r.Intn(2)))
+			case k < 88:
+				_ = store.BanIPNet(n, banman.NoCompactFilters, time.Hour)
+			default:
+				_ = store.UnbanIPNet(n)
+			}
+		}
+	})
 }
 
 type sized uint64
